@@ -48,7 +48,7 @@ def match(known, prop, v):
     return None
 
 
-def still_fails(f, root, env):
+def still_fails(f, root, env, bindir=None):
     """An open finding prints its KNOWN-FINDING line while its committed minimal replay still fails."""
     rp = f.get("replay")
     if not rp:
@@ -58,7 +58,9 @@ def still_fails(f, root, env):
         tool = json.load(open(os.path.join(root, rp))).get("tool", "replay")
     except Exception:
         pass
-    cmd = f.get("replay_cmd") or (os.path.join(root, "bin", tool) + " -replayfile " + os.path.join(root, rp))
+    bindir = bindir or os.path.join(root, "bin")
+    cmd = f.get("replay_cmd") or ("bin/" + tool + " -replayfile " + rp)
+    cmd = cmd.replace("bin/", bindir + "/", 1).replace(" findings/", " " + os.path.join(root, "findings") + "/")
     for _ in range(4):
         p = subprocess.run(cmd, shell=True, cwd=root, env=env, capture_output=True, text=True)
         if p.returncode != 0:
